@@ -519,7 +519,30 @@ def _job_delegation(tier, rng):
                 ok = len(got) == len(want) and all(bool(g == w) for g, w in zip(got, want))
             info = repr(calls)[:200]
         except Exception as ex:
+            if not from_repo(ex):
+                raise
             ok = False; info = f'{type(ex).__name__}: {ex}'
+        if not ok:
+            # the delegation pattern (one call of the functional map, result returned unchanged) is about HOW forward() is organised. End-to-end, no stub: if forward() equals the
+            # functional map evaluated on the module's own parameter and configuration, the code is merely organised differently -> undecided; otherwise a violation.
+            try:
+                m = cls(**kw)
+                with torch.no_grad():
+                    r_fwd = m.forward(); args = tuple(argf(m)) if argf is not None else None
+                    r_map = getattr(mod, fname)(m.theta, *args) if args is not None else None
+                same = r_map is not None and tuple(r_fwd.shape) == tuple(r_map.shape) and bool(torch.allclose(r_fwd, r_map, atol=1e-12, rtol=0))
+            except Exception as ex:
+                if not from_repo(ex):
+                    raise
+                same = None; info += f' | end-to-end: {type(ex).__name__}: {ex}'
+            if same:
+                out.append(ob(oid, 'undecided', engine_suspect=True, functions=[f'numqi.manifold:{cls.__name__}.forward'], tier='P', backend='exact-eval (recorder stub)+native',
+                              detail=f'forward() is not organised as one call of {fname} returned unchanged ({info}), but its value equals {fname}(theta, configuration): undecided, the bounded nn_modules job decides'))
+                continue
+            if r_map is None and same is not None:
+                out.append(ob(oid, 'undecided', engine_suspect=True, functions=[f'numqi.manifold:{cls.__name__}.forward'], tier='P', backend='exact-eval (recorder stub)',
+                              detail=f'delegation pattern not matched ({info}); no end-to-end comparison available for this map: the bounded nn_modules job decides'))
+                continue
         out.append(ob(oid, 'proved' if ok else 'refuted', functions=[f'numqi.manifold:{cls.__name__}.forward'], tier='P', backend='exact-eval (recorder stub)',
                       witness=None if ok else dict(cls=cls.__name__, kwargs=jsonable({k: str(v) for k, v in kw.items()}), observed=info), native=dict(confirmed=not ok)))
     return out
